@@ -1,10 +1,20 @@
 #!/bin/sh
-# Compiles the Coq model, extracts it and builds the OCaml driver (/verif/driver/engine/engine_driver).
+# Compiles the Coq model (only the files that are out of date: Engine.vo is shared with the proof
+# files), extracts it and builds the OCaml driver (/verif/driver/engine/engine_driver).
 set -e
 cd /verif/coq
 /verif/bin/gen-engine-tables > /dev/null
-timeout 900 coqc -Q . Verif RModel/EngineTables.v
-timeout 900 coqc -Q . Verif RModel/Engine.v
+comp() { # comp file.v dep.vo...
+  v=$1; vo=${1%.v}.vo; shift
+  need=0
+  [ -f "$vo" ] || need=1
+  [ "$need" = 1 ] || [ "$v" -nt "$vo" ] && need=1
+  for d in "$@"; do [ "$d" -nt "$vo" ] && need=1; done
+  if [ "$need" = 1 ]; then timeout 900 coqc -Q . Verif "$v"; fi
+}
+comp RModel/EngineTables.v
+comp RModel/Engine.v RModel/EngineTables.vo WModel/Base.vo
+comp RModel/EngineReset.v RModel/Engine.vo
 mkdir -p /verif/driver/engine
 cd /verif/driver/engine
 timeout 900 coqc -Q ../../coq Verif ../../coq/RModel/EngineExtract.v > extract.log 2>&1 || { cat extract.log; exit 1; }
